@@ -8,11 +8,11 @@ contracts only.
 """
 import z3
 
-from pyvc.contract import ContractSet
+from pyvc.contract import ContractSet, LoopSpec
 from pyvc.vals import *       # noqa
 from pyvc import extract
 from . import common
-from .common import DelayMgr, delay_present, delay_entry, events_named
+from .common import DelayMgr, delay_present, delay_entry, events_named, emit
 
 DRIVER = "mpf/devices/driver.py"
 IFACE = "mpf/platforms/interfaces/driver_platform_interface.py"
@@ -501,3 +501,73 @@ def build():
     C.assume("limits configured as 0/0.0 are treated as not configured (the code tests truthiness); documented")
     C.assume("A-FLOAT: Python floats modelled as mathematical reals")
     return C
+
+
+CP = "mpf/config_players/coil_player.py"
+
+
+def coil_player_set():
+    """coil_player / show entries reach the coil unchanged: what the entry asks for is what Driver.pulse / enable is
+    called with, so an entry above the coil's limits meets the driver's own check (refused with an error) and is never
+    clamped on the way"""
+    C = ContractSet("C08p", "coil player entries reach the driver unchanged")
+    C.strings = False
+    C.cls("DeviceConfigPlayer", fields={})
+    C.cls("Driver", fields=dict(name=Str, config=Rec(max_pulse_ms=Opt(Int), default_pulse_ms=Opt(Int))))
+    C.globals["Driver"] = VCls("Driver")
+    for m_ in ("pulse", "enable", "disable"):
+        C.ext("Driver." + m_, model=(lambda nm: lambda I, env, a, k: (emit(I, "coil." + nm, coil=env["self"].ref, args=list(a),
+                                                                          kwargs=dict(k)), NONE)[1])(m_),
+              trusted_reason="Driver.pulse / enable / disable: main set (limits checked there, DriverLimitsError)")
+
+    def deepcopy_model(I, args, kwargs):
+        v = I.force(args[0])
+        if v.tag == "dict":
+            return I.new_dict(tuple(I.container(v.ref).entries), "deepcopy")
+        return v
+    C.globals["deepcopy"] = VFn("model", model=deepcopy_model)
+
+    def settings(I, name):
+        coil = I.fresh(ObjS("Driver"), name + ".coil")
+        act = ["pulse", "enable", "on", "disable", "off"][I.ctx.fork(5)]
+        s = I.new_dict((("action", VStr(act)), ("pulse_ms", I.fresh(Opt(Int), name + ".pulse_ms")),
+                        ("pulse_power", I.fresh(Opt(Real), name + ".pulse_power")),
+                        ("hold_power", I.fresh(Opt(Real), name + ".hold_power")),
+                        ("max_wait_ms", I.fresh(Opt(Int), name + ".max_wait_ms"))), name + ".s")
+        I.__dict__["c08_entry"] = (I.force(coil).ref, act, I.container(I.force(s).ref))
+        return I.new_dict(((coil, s),), name)
+    C.cls("CoilPlayer", file=CP, bases=["DeviceConfigPlayer"], fields={})
+    C.ext("CoilPlayer._get_instance_dict", model=lambda I, env, a, k: I.fresh(MapS(Str, Opaque("CoilRef")), "instances"),
+          trusted_reason="per-context instance dict (which coils a show holds enabled)")
+
+    def forwarded(I):
+        coil, act, s = I.__dict__["c08_entry"]
+        evs = [e for e in I.cur_trace() if e.name.startswith("coil.")]
+        if len(evs) != 1 or evs[0].args["coil"] is not coil or evs[0].args["args"]:
+            return VBool(False)
+        kw = evs[0].args["kwargs"]
+        if act == "pulse":
+            want = {"pulse_ms": s.get("pulse_ms"), "pulse_power": s.get("pulse_power"), "max_wait_ms": s.get("max_wait_ms")}
+            nm = "coil.pulse"
+        elif act in ("enable", "on"):
+            want = {"pulse_ms": s.get("pulse_ms"), "pulse_power": s.get("pulse_power"), "hold_power": s.get("hold_power")}
+            nm = "coil.enable"
+        else:
+            want, nm = {}, "coil.disable"
+        if evs[0].name != nm or set(kw) != set(want):
+            return VBool(False)
+        return VBool(z3.And([I.eq(kw[k_], want[k_]) for k_ in want] + [z3.BoolVal(True)]))
+    C.helpers["entry_forwarded"] = forwarded
+    C.trace_helpers = {"entry_forwarded"}
+    C.fn("CoilPlayer.play", params=dict(settings=Init(settings), context=Str, calling_context=Str, priority=Int,
+                                        kwargs=Opaque("Kwargs")),
+         loops_by_text={"settings.items()": LoopSpec(invariant=[], unroll=True)},
+         ensures=[("CP1: the coil's own method is called once with EXACTLY the entry's pulse_ms, pulse_power, hold_power "
+                   "and max_wait_ms - nothing is clamped or replaced on the way, so a value above the coil's limits is "
+                   "refused by the driver instead of being shortened silently", "entry_forwarded()")],
+         modifies=[], raises={}, skip_frame=True, bounded="BOUNDED: one entry per call")
+    return C
+
+
+def build_extra():
+    return [coil_player_set()]
